@@ -7,6 +7,8 @@ Correspondence: the real Workstream driven by harness/cmd/c12 - every history in
         explicit await / open-gate / delete / tick steps: each call's result class and each plan's execution count
         must be producible by the model (set-of-states simulation with the model's own `step`, ApiCheck.check_ops);
   (ii)  bursts of 2-16 concurrent Start (+ concurrent Wait/Plan/Status) on one id: monitor only;
+  (ii') held-read cases: a vault wrapper holds the store.Read inside one Start while other Starts are made and (if
+        one of them started the plan) its execution finishes; then the held call goes on: monitor only;
   (iii) plan images with old / future / zero SubmitTime and non-NotStarted or otherwise unstartable images created
         directly in the vault, and histories in which time really passes (maxSubmit 6 s).
 The property monitor (ApiCheck.hist_monitor / burst_monitor) is evaluated in Coq on every observation.
@@ -37,10 +39,10 @@ DEFECT = {1: "A1/A2 (panic)", 2: "A1", 3: "A1", 5: "A2", 7: "A1"}
 
 def sizes(tier):
     if tier == "quick":
-        return [dict(n=300, bursts=120, ticks=3, maxlen=12, base=0)]
+        return [dict(n=300, bursts=120, ticks=3, stale=10, maxlen=12, base=0)]
     # thorough: more of the same, plus a batch of long histories (up to 24 calls before quiescing)
-    return [dict(n=10000, bursts=3000, ticks=30, maxlen=12, base=0),
-            dict(n=2000, bursts=0, ticks=0, maxlen=24, base=100000)]
+    return [dict(n=10000, bursts=3000, ticks=30, stale=300, maxlen=12, base=0),
+            dict(n=2000, bursts=0, ticks=0, stale=0, maxlen=24, base=100000)]
 
 
 def evaluate(ctx, cases, tag=""):
@@ -86,7 +88,7 @@ def run(ctx):
         cases = []
         for k, z in enumerate(sizes(ctx.tier)):
             part = ctx.harness("c12", ["-n", str(z["n"]), "-bursts", str(z["bursts"]), "-ticks", str(z["ticks"]),
-                                       "-maxlen", str(z["maxlen"]), "-base", str(z["base"])],
+                                       "-maxlen", str(z["maxlen"]), "-base", str(z["base"]), "-stale", str(z["stale"])],
                                out_name="cases_%d.jsonl" % k, timeout=3000)
             if part is None:
                 cases = None
